@@ -25,7 +25,6 @@ structure CtlInv (s : Sys) : Prop where
   osend : s.oh = .done → s.sendQ = []
   busy1 : busy s ≤ 1
   idle : s.waiting = false → busy s = 0 ∧ s.pending = []
-  stall1 : s.stallCh ≤ 1
   indisc : s.inDone = true → s.disc = true
   hsdisc : (s.hs = .abandoned ∨ s.hs = .drained) → s.disc = true
   unstarted : s.hs ≠ .started → s.qh = .main ∧ s.oh = .main ∧ s.sendQ = [] ∧ s.pending = []
@@ -34,12 +33,12 @@ theorem ctl_init (ids : List Nat) : CtlInv (init ids) := by
   constructor <;> simp [init, busy, OPhase.busy]
 
 theorem ctl_step (c : Cfg) (s : Sys) (ch : Choice) (h : CtlInv s) : CtlInv (step c s ch) := by
-  obtain ⟨h1, h2, h3, h4, h5, h6, h7, h8, h9, h10, h11⟩ := h
+  obtain ⟨h1, h2, h3, h4, h5, h6, h7, h9, h10, h11⟩ := h
   unfold step
   cases ch <;> simp only [stepOpt, hStep]
   all_goals (repeat' split)
   all_goals (simp only [Option.getD_some, Option.getD_none])
-  all_goals (first | exact ⟨h1, h2, h3, h4, h5, h6, h7, h8, h9, h10, h11⟩ | skip)
+  all_goals (first | exact ⟨h1, h2, h3, h4, h5, h6, h7, h9, h10, h11⟩ | skip)
   all_goals (constructor <;> simp_all [busy, OPhase.busy] <;> try omega)
 
 /-- Stall-handler invariant of the repaired handler: it is gone only when both the in and the
@@ -381,12 +380,12 @@ theorem effective_le (c : Cfg) : ∀ (sched : List Choice) (s : Sys),
 /-- After the disconnect request, as long as a handler goroutine is still alive one of the
 handler actions is enabled (no deadlock among queueHandler / outHandler / inHandler /
 stallHandler) — for the repaired stall handler. -/
-theorem progress (c : Cfg) (hdb : c.drainBug = false) (s : Sys) (hc : CtlInv s) (hst : StallInv s)
+theorem progress (c : Cfg) (hdb : c.drainBug = false) (hcd : 1 ≤ c.capDone) (hcs : 1 ≤ c.capStall)
+    (s : Sys) (hc : CtlInv s) (hst : StallInv s)
     (hd : s.disc = true) (hf : final s = false) :
     ∃ ch ∈ [Choice.qQuit, .qStep, .oQuit, .oStep, .iExit, .sRecv, .sInQuit, .sOutQuit, .abandon,
       .aStep], (stepOpt c s ch).isSome := by
   have hb := hc.busy1
-  have hs1 := hc.stall1
   cases hh : s.hs with
   | pre => exact ⟨.abandon, by simp, by simp [stepOpt, hh, hd]⟩
   | abandoned => exact ⟨.aStep, by simp, by simp [stepOpt, hh, hdb] <;> split <;> simp⟩
@@ -400,7 +399,7 @@ theorem progress (c : Cfg) (hdb : c.drainBug = false) (s : Sys) (hc : CtlInv s) 
     cases ho : s.oh with
     | main => exact ⟨.oQuit, by simp, by simp [stepOpt, hStep, hh, ho, hd]⟩
     | holding m =>
-      by_cases hfull : s.stallCh < 1
+      by_cases hfull : s.stallCh < c.capStall
       · exact ⟨.oStep, by simp, by simp [stepOpt, hStep, hh, ho, hfull]⟩
       · -- the buffer is full: the stall handler is still there (it leaves only after outHandler)
         cases hsh : s.sh with
@@ -413,7 +412,8 @@ theorem progress (c : Cfg) (hdb : c.drainBug = false) (s : Sys) (hc : CtlInv s) 
     | wrote m ok => exact ⟨.oStep, by simp, by simp [stepOpt, hStep, hh, ho]⟩
     | owesDone =>
       have : s.sendDone = 0 := by simp [busy, OPhase.busy, ho] at hb; omega
-      exact ⟨.oStep, by simp, by simp [stepOpt, hStep, hh, ho, this]⟩
+      have hlt : s.sendDone < c.capDone := by omega
+      exact ⟨.oStep, by simp, by simp [stepOpt, hStep, hh, ho, hlt]⟩
     | waitQ => exact ⟨.oStep, by simp, by simp [stepOpt, hStep, hh, ho, hq]⟩
     | cleanup => exact ⟨.oStep, by simp, by simp [stepOpt, hStep, hh, ho] <;> split <;> simp⟩
     | done =>
